@@ -316,4 +316,68 @@ def viewsOf (heap : Nat → Cfg) (steps : List Step) : List (Nat × Int) :=
 def run (inp : Input) : Option Obs :=
   (runSt inp).map fun r => ⟨r.2, viewsOf r.1.heap r.2⟩
 
+/-! ### histories: several creations on ONE registration
+
+A registration lives as long as the process; `New` / `NewFactory` are called on it again and again with other user
+settings (two pools of one config that use the same gun type).  A *phase* is what `runSt` does — `NewFactory` + k calls,
+or k× `New` — but started in the state the previous phases left (configuration objects, invocation counters). -/
+
+/-- one phase started in `st` -/
+def phaseSt (inp : Input) (st : St) : St × List Step :=
+  match inp.form with
+  | .component => iter (step (regNew inp.sh inp.w)) inp.k { st with log := [] }
+  | form =>
+    let c := regNewFactory inp.sh inp.w form.numOut { st with log := [] }
+    match c.2 with
+    | .error e => (c.1, [⟨c.1.log.reverse, .err e⟩])
+    | .ok fac =>
+      let r := iter (step (callFac inp.sh inp.w fac)) inp.k c.1
+      (r.1, ⟨c.1.log.reverse, .made⟩ :: r.2)
+
+/-- the observation of one phase: its steps and, at its end, the views of its own products -/
+def phaseObs (inp : Input) (st : St) : Obs :=
+  ⟨(phaseSt inp st).2, viewsOf (phaseSt inp st).1.heap (phaseSt inp st).2⟩
+
+/-- one creation of a history: requested form, the user's settings of this creation, number of calls -/
+structure Phase where
+  form : Form
+  user : Cfg
+  hasFill : Bool
+  k : Nat
+
+/-- a history on one registration: the shape, what the default-config function returns, one fault plan over the
+(global) invocation indices, the phases -/
+structure HInput where
+  sh : Shape
+  dflt : Cfg
+  fillFault : Nat → Bool
+  ctorFault : Nat → Bool
+  factFault : Nat → Bool
+  phases : List Phase
+
+def HInput.input (h : HInput) (p : Phase) : Input :=
+  { sh := h.sh, form := p.form, k := p.k,
+    w := { dflt := h.dflt, user := p.user, hasFill := p.hasFill,
+           fillFault := h.fillFault, ctorFault := h.ctorFault, factFault := h.factFault } }
+
+/-- the phases one after the other: final state, per phase its observation -/
+def histSt (h : HInput) : List Phase → St → St × List Obs
+  | [], st => (st, [])
+  | p :: ps, st =>
+    ((histSt h ps (phaseSt (h.input p) st).1).1, phaseObs (h.input p) st :: (histSt h ps (phaseSt (h.input p) st).1).2)
+
+structure HObs where
+  phases : List Obs
+  views : List (Nat × Int)      -- at the very end: what every pointer-holding product of the whole history reads
+deriving DecidableEq, Repr
+
+def histInit (h : HInput) : St :=
+  initSt h.sh { dflt := h.dflt, user := [], hasFill := false, fillFault := h.fillFault, ctorFault := h.ctorFault,
+                factFault := h.factFault }
+
+def runHist (h : HInput) : Option HObs :=
+  if !registerOk h.sh then none else
+  let r := histSt h h.phases (histInit h)
+  some ⟨r.2, viewsOf r.1.heap (r.2.flatMap (·.steps))⟩
+
 end Pandora.Model.C18
